@@ -18,9 +18,11 @@ from hv import Case
 from props import c16
 
 SPEC = {
-    "lean_modules": ["Honeycomb.Props.C17", "Honeycomb.Props.C17Surf", "Honeycomb.Props.C16Grid", "Honeycomb.Props.C16EdgeInsert", "Honeycomb.Props.C16Chain", "Honeycomb.Props.C16ChainGrid", "Honeycomb.Props.C16Step5Pipe", "Honeycomb.Props.C16Gen"],
-    "gen": ["anchors", "gcross"],
+    "lean_modules": ["Honeycomb.Props.C17", "Honeycomb.Props.C17Surf", "Honeycomb.Props.C16Grid", "Honeycomb.Props.C16EdgeInsert", "Honeycomb.Props.C16Chain", "Honeycomb.Props.C16ChainGrid", "Honeycomb.Props.C16Step5Pipe", "Honeycomb.Props.C16Gen", "Honeycomb.Props.C17Gen"],
+    "gen": ["anchors", "gcross", "pre"],
     "required_theorems": [
+        # Props/C17Gen.lean: the on-grid-line tests of detect_overlaps and the grid sizing of grisubal/routines/pre_processing.rs as translated
+        "C17_gen_on_grid_axes", "C17_gen_on_grid", "C17_gen_on_grid_eq", "C17_gen_refl_guard", "C16_gen_grid_data", "C16_gen_grid_origin", "C16_gen_grid_cells",
         # Props/C16Gen.lean: the intersection step generate_intersection_data of grisubal/routines/compute_intersecs.rs as translated IS crossingsOf
         "C16_gen_cross_step", "C16_gen_cross_arms_complete", "C16_gen_cross_macro_names",
         "C17_classify_frame", "C17_classify_WF", "C17_classify_ok_all_anchored",
